@@ -308,6 +308,7 @@ func fillRegex(h *history, mst string, at *reAtom, neg bool) error {
 	var pre *regexp.Regexp
 	var perr error
 	lit := vtf.IsLiteralRegexp()
+	at.tfLiteral = lit
 	if !lit {
 		pre, perr = regexp.Compile(at.value)
 	}
@@ -355,7 +356,8 @@ func b2c(b bool) byte {
 
 func (at *reAtom) token() string {
 	var sb strings.Builder
-	fmt.Fprintf(&sb, "R:%c:%s:", b2c(at.matchEmpty), hx2(at.value))
+	// R:<matchEmpty><literal-regexp><empty text>:<tf.value>:<regex text>:<value/tf/prune;...>
+	fmt.Fprintf(&sb, "R:%c%c%c:%s:%s:", b2c(at.matchEmpty), b2c(at.tfLiteral), b2c(at.text == ""), hx2(at.value), hx2(at.text))
 	for i, r := range at.rows {
 		if i > 0 {
 			sb.WriteByte(';')
